@@ -496,6 +496,20 @@ def fam_conn(tier, seed):
         steps = [{"at": 0, "do": "start", "i": "A"}, {"at": t1, "do": "disc", "i": "A"}, {"at": t1 + 200 * MS, "do": "out_put", "cls": "as:B"},
                  {"at": t1 + rng.choice([1000, 1500, 2000]) * MS, "do": "reconn", "i": "A"}]
         out.append(scn("conn-reconnect-as-follower-%d" % k, seed * 1000 + 985 + k, H, 5.0, insts, steps, "conn", t1 + 3 * grace + 2 * S, lat=20 * MS, watch=30 * MS))
+    # a failed reconnect verification standing right before its demotion while the term is ended by another path (stop call or
+    # the heartbeat): one demotion callback (scheduler gate at the handler's log line)
+    for k in range(4 if tier == "quick" else 24):
+        H = rng.choice([500 * MS, 1 * S])
+        t = int((1.4 + rng.random()) * H)
+        insts = [inst("A", conn=True, grace_us=8 * H, gate_log="demoting_due_to_reconnect_verification_failure")]
+        steps = [{"at": 0, "do": "start", "i": "A"}, {"at": t - H // 4, "do": "disc", "i": "A"},
+                 {"at": t - H // 8, "do": "out_put", "cls": rng.choice(["as:B", "other"])}, {"at": t, "do": "reconn", "i": "A"}]
+        if k % 2 == 0:
+            steps.append(dict(STOP_VARIANTS[(k // 2) % len(STOP_VARIANTS)], at=t + 400 * MS, i="A"))
+            steps.append({"at": t + 400 * MS, "do": "release_gate", "i": "A"})
+        else:
+            steps.append({"at": t + H + 300 * MS, "do": "release_gate", "i": "A"})
+        out.append(scn("conn-verification-failure-races-term-end-%d" % k, seed * 1000 + 995 + k, H, 3.0, insts, steps, "conn", t + 8 * S, lat=int(H * 0.04)))
     # a stop call issued while the reconnect handler stands between its leader check and the start of the verification
     # (scheduler gate at the handler's log line)
     for k in range(4 if tier == "quick" else 24):
@@ -758,6 +772,18 @@ def fam_regress(tier, seed):
                 {"at": 0, "do": "start", "i": "A"}, {"at": H // 4, "do": "start", "i": "B"},
                 {"at": int(2.3 * H), "do": "cancel_start_ctx", "i": rng.choice("AB")}, {"at": int(2.3 * H), "do": "cancel_start_ctx", "i": "A"},
                 dict(STOP_VARIANTS[v], at=int(2.3 * H) + rng.choice([0, 10 * MS]), i="A")], "regress", 8 * H + 2 * S, lat=20 * MS, watch=30 * MS))
+        # 21. an OnPromote callback that panics (the library recovers it): the term goes on, and ends like any other when the record is lost
+        for cls in ("as:B", "del"):
+            out.append(scn("reg-promote-callback-panics-%s-%d" % (cls.replace(":", "_"), k), seed * 1000 + k, H, ratio,
+                           [inst("A", promote_panic=True), inst("B")],
+                           [{"at": 0, "do": "start", "i": "A"}, {"at": H // 4, "do": "start", "i": "B"},
+                            ({"at": int(2.3 * H), "do": "out_put", "cls": cls} if cls != "del" else {"at": int(2.3 * H), "do": "out_del"})],
+                           "regress", 9 * H + 2 * S, lat=20 * MS, watch=30 * MS))
+        # 22. an OnDemote callback that calls Stop() (demotion observed by the watcher of an instance that followed before it led)
+        out.append(scn("reg-demote-callback-calls-stop-%d" % k, seed * 1000 + k, H, ratio, [inst("A"), inst("B", demote_calls_stop=True)], [
+            {"at": 0, "do": "start", "i": "A"}, {"at": H // 4, "do": "start", "i": "B"},
+            {"at": int(2.3 * H), "do": "stopctx", "i": "A", "del": True},
+            {"at": int(4.6 * H), "do": "out_put", "cls": "as:A"}], "regress", 16 * H + 8 * S, lat=20 * MS, watch=30 * MS))
         # 19. a heartbeat tick held by a hanging health check while the leader is preempted and, as a follower, observes its
         #     successor's next refresh: when the check returns the tick must not go on to the Update
         out.append(scn("reg-hanging-check-across-preemption-%d" % k, seed * 1000 + k, H1, 5.0,
